@@ -2,13 +2,117 @@
    (tokenise-then-substitute, Model/SnippetSpec.v — no scanner loop) evaluated on what the
    implementation wrote. *)
 Require Export Gengo.Base.Bytes Gengo.Model.Snippet Gengo.Model.SnippetSpec.
+Require Export Gengo.Model.RenderStack Gengo.Model.ValueLit Gengo.Model.ValueLitInst.
+Require Import Gengo.Model.GoIdent Gengo.Model.TrackerSpec Gengo.Gen.StdList.
+From Coq Require Export ZArith.
 
-Record case := mk_case {
-  c_snip : snip;                 (* the snippet term that was built with the real package *)
+(* ---- RenderStack: the same term with STRUCTURED leaves (values of C10's universe, types / references of C11 / C15),
+   rendered by the composed model through C03's tracker, compared with the text AND with Imports() ---- *)
+Record scase := mk_stack {
+  s_self : bytes;                        (* rawNamer.pkgPath of the writer *)
+  s_quotes : list (bytes * bytes);       (* s -> strconv.Quote(s) for every string in a value *)
+  s_term : @csnip fl;                    (* the term: Value / ID / PkgExpose leaves and Sprintf arguments as data *)
+  s_imports : list (bytes * bytes)       (* ImportTracker.Imports() after the rendering: (path, name), sorted by path *)
+}.
+
+Record case := mk_case0 {
+  c_snip : snip;                 (* the snippet term that was built with the real package; sub-renderings of Value / ID
+                                    leaves observed in the FINAL tracker state (RenderStack: crender_erase) *)
   c_obs : option bytes;          (* bytes written by SnippetWriter.Render; None = it panicked *)
   c_bom : bool;                  (* harness classifier: leading_bom *)
-  c_nolit : bool                 (* harness classifier: value_literal_unavailable *)
+  c_nolit : bool;                (* harness classifier: value_literal_unavailable *)
+  c_stack : option scase         (* the structured term, when every leaf is inside the composed model *)
 }.
+Definition mk_case (s : snip) (o : option bytes) (b n : bool) : case := mk_case0 s o b n None.
+Definition mk_scase (s : snip) (o : option bytes) (b n : bool) (sc : scase) : case := mk_case0 s o b n (Some sc).
+
+(* fixes/C10-6-zero-struct-import.diff is in the tree *)
+Definition stack_fx6 : bool := true.
+
+Definition s_model (sc : scase) : res (bytes * TL.renv) :=
+  crender i_fzero i_ffmt i_gfmt i_fbig (i_quote (s_quotes sc)) (fun _ => true) the_pick (s_self sc) stack_fx6 (s_term sc) [].
+
+Definition pair_eqb (a b : bytes * bytes) : bool := bytes_eqb (fst a) (fst b) && bytes_eqb (snd a) (snd b).
+Definition table_eqb (e obs : list (bytes * bytes)) : bool := list_eqb pair_eqb (Tk.sort_by_key e) obs.
+
+Definition stack_mismatch (o : option bytes) (sc : scase) : bool :=
+  match s_model sc, o with
+  | Ok (out, e'), Some b => negb (bytes_eqb out b) || negb (table_eqb e' (s_imports sc))
+  | Panic, None => false
+  | _, _ => true
+  end.
+
+(* ---- C03's sentence read off the written text and Imports() alone: the names bound in the table are pairwise
+   distinct valid identifiers that shadow nothing, and they are exactly the qualifiers occurring in the text (none
+   unused, none missing).  A qualifier: a maximal identifier directly followed by '.' and an identifier start, outside
+   string literals. ---- *)
+Definition dq : ascii := ascii_of_N 34.
+Definition bsl : ascii := ascii_of_N 92.
+Definition c_dot : ascii := "."%char.
+
+Fixpoint quals_go (s : bytes) (run : bytes) (instr esc : bool) : list bytes :=
+  match s with
+  | [] => []
+  | c :: r =>
+      if instr then
+        if esc then quals_go r [] true false
+        else if Ascii.eqb c bsl then quals_go r [] true true
+        else if Ascii.eqb c dq then quals_go r [] false false
+        else quals_go r [] true false
+      else if Ascii.eqb c dq then quals_go r [] true false
+      else if ident_char c then quals_go r (c :: run) false false
+      else if Ascii.eqb c c_dot then
+        (match rev run, r with
+         | h :: _, d :: _ => if ident_start h && ident_start d then [rev run] else []
+         | _, _ => []
+         end) ++ quals_go r [] false false
+      else quals_go r [] false false
+  end.
+Definition quals (s : bytes) : list bytes := quals_go s [] false false.
+
+(* the qualifiers of the leaf renderings that the SPECIFICATION (tokenise, substitute: Model/SnippetSpec.v) puts into
+   the text: holes that occur and whose argument is not nil, arguments a verb consumes.  Read off the erased term
+   (the leaf texts are observations); no scanner loop, no tracker. *)
+Fixpoint verb_quals (ts : list stok) (args : list (list bytes * list bytes)) : list bytes :=
+  match ts with
+  | [] => []
+  | KV :: r => match args with [] => [] | a :: args' => fst a ++ verb_quals r args' end
+  | SnippetSpec.KT :: r => match args with [] => [] | a :: args' => snd a ++ verb_quals r args' end
+  | KBad _ :: _ => []
+  | _ :: r => verb_quals r args
+  end.
+
+Definition oquals (o : option bytes) : list bytes := match o with Some t => quals t | None => [] end.
+
+Fixpoint spec_quals (s : snip) : list bytes :=
+  match s with
+  | ST f args =>
+      let tbl := map (fun p => (fst p, if isnil_of (snd p) then [] else spec_quals (snd p))) args in
+      flat_map (fun t => match t with
+                         | Hole n _ => match lookup n tbl with Some l => l | None => [] end
+                         | Lit _ => []
+                         end) (tokenize (trim_nl f))
+  | SSprintf f args =>
+      verb_quals (stokenize f)
+        (map (fun a => match a with
+                       | SVal vl ti => (oquals vl, oquals ti)
+                       | _ => (spec_quals a, spec_quals a)
+                       end) args)
+  | SSnippets l => flat_map (fun c => if isnil_of c then [] else spec_quals c) l
+  | SFragments x => if isnil_of x then [] else spec_quals x
+  | SOpaque _ out => oquals out
+  | _ => []
+  end.
+
+Definition stack_holds (o : option bytes) (erased : snip) (sc : scase) : bool :=
+  match o with
+  | None => true
+  | Some _ =>
+      let names := map snd (s_imports sc) in
+      nodup_b names && nodup_b (map fst (s_imports sc))
+      && forallb valid_name_b names && forallb (not_predeclared_b universe_names) names
+      && same_set_b (if isnil_of erased then [] else spec_quals erased) names
+  end.
 
 Definition obs_eqb (r : res bytes) (o : option bytes) : bool :=
   match r, o with
@@ -21,14 +125,16 @@ Definition obs_eqb (r : res bytes) (o : option bytes) : bool :=
 Definition mismatch (c : case) : bool :=
   negb (obs_eqb (render all_fixed (c_snip c)) (c_obs c))
   || negb (Bool.eqb (cls_bom (c_snip c)) (c_bom c))
-  || negb (Bool.eqb (cls_nolit (c_snip c)) (c_nolit c)).
+  || negb (Bool.eqb (cls_nolit (c_snip c)) (c_nolit c))
+  || match c_stack c with Some sc => stack_mismatch (c_obs c) sc | None => false end.
 
 (* the property: on its domain (formats are well-formed UTF-8) what was written is the format
    text without its leading newlines with every @name replaced by the complete rendering of its
    argument, etc. — [spec_render same OutOfFuel]: formats read as they are; a %v argument without
    a value literal has no specified rendering (no observation equals OutOfFuel) *)
 Definition holds (c : case) : bool :=
-  negb (fmts_utf8 (c_snip c)) || obs_eqb (spec_render same OutOfFuel (c_snip c)) (c_obs c).
+  (negb (fmts_utf8 (c_snip c)) || obs_eqb (spec_render same OutOfFuel (c_snip c)) (c_obs c))
+  && match c_stack c with Some sc => stack_holds (c_obs c) (c_snip c) sc | None => true end.
 
 Definition mismatches (cs : list case) : list nat := bad_indices mismatch cs.
 
@@ -36,3 +142,19 @@ Definition mismatches (cs : list case) : list nat := bad_indices mismatch cs.
 Definition mismatches_before_fix (cs : list case) : list nat :=
   bad_indices (fun c => negb (obs_eqb (render none_fixed (c_snip c)) (c_obs c))) cs.
 Definition violations (cs : list case) : list nat := bad_indices (fun c => negb (holds c)) cs.
+
+(* ---- constructors of the structured term, as the case files write them ---- *)
+Definition QNil : @csnip fl := RNil _ _.
+Definition QBlock (b : bytes) : @csnip fl := RBlock _ _ b.
+Definition QT (f : bytes) (args : list (bytes * @csnip fl)) : @csnip fl := RT _ _ f args.
+Definition QSprintf (f : bytes) (args : list (@csnip fl)) : @csnip fl := RSprintf _ _ f args.
+Definition QRaw (a : @rawarg fl) : @csnip fl := RRaw _ _ a.
+Definition QComment (v : bytes) : @csnip fl := RComment _ _ v.
+Definition QDirective (d : bytes) (args : list bytes) : @csnip fl := RDirective _ _ d args.
+Definition QSnippets (l : list (@csnip fl)) : @csnip fl := RSnippets _ _ l.
+Definition QFragments (x : @csnip fl) : @csnip fl := RFragments _ _ x.
+Definition QValue (t : gotype) (v : goval fl) : @csnip fl := RLeaf _ _ (LValue (Some (t, v))).
+Definition QValueNil : @csnip fl := RLeaf _ _ (@LValue fl None).
+Definition QID (x : TL.idarg) : @csnip fl := RLeaf _ _ (@LID fl (Some x)).
+Definition QIDNil : @csnip fl := RLeaf _ _ (@LID fl None).
+Definition QExpose (p n : bytes) : @csnip fl := RLeaf _ _ (@LExpose fl p n).
